@@ -30,6 +30,10 @@ func (c *Ctx) moduleFuncs() []*ssa.Function {
 		if root.Pkg == nil || !c.P.isModulePath(root.Pkg.Pkg.Path()) {
 			continue
 		}
+		// github.com/mikefarah/yq/v4/test holds helpers used only by _test files
+		if strings.HasSuffix(root.Pkg.Pkg.Path(), "/test") {
+			continue
+		}
 		// generic instantiations: keep the origin only
 		if fn.Origin() != nil && fn.Origin() != fn {
 			continue
@@ -369,4 +373,35 @@ func staticReach(c *Ctx, roots []*ssa.Function, barrier func(*ssa.Function) bool
 		})
 	}
 	return parent
+}
+
+// returnedValue resolves the idx-th operand of a Return. In functions with
+// defers and named results go/ssa spills results: the operand is a load of the
+// result cell and the value is the last store to that cell before the return.
+func returnedValue(ret *ssa.Return, idx int) ssa.Value {
+	if idx >= len(ret.Results) {
+		return nil
+	}
+	v := ret.Results[idx]
+	u, ok := v.(*ssa.UnOp)
+	if !ok || u.Op != token.MUL {
+		return v
+	}
+	al, ok := u.X.(*ssa.Alloc)
+	if !ok {
+		return v
+	}
+	// walk back from the return through single-predecessor blocks
+	for b := ret.Block(); b != nil; {
+		for i := len(b.Instrs) - 1; i >= 0; i-- {
+			if st, ok := b.Instrs[i].(*ssa.Store); ok && st.Addr == al {
+				return st.Val
+			}
+		}
+		if len(b.Preds) != 1 {
+			break
+		}
+		b = b.Preds[0]
+	}
+	return v
 }
